@@ -26,11 +26,15 @@ def replay(col, case):
     exp = np.array([[float(fr(x)) for x in row] for row in case["score"]])
     rep = {"abstract": {"obs": case["obs"], "est": case["est"], "taus": case["taus"]}}
     def call(label, fn, *a):
+        keep = [np.array(x, copy=True) for x in a]
         try:
-            return fn(*a)
+            r = fn(*a)
         except Exception as ex:
             col.violation(label + "-raises-" + type(ex).__name__, dict(rep, observed=repr(ex)[:200]))
             return None
+        if not all(np.array_equal(k, np.asarray(x)) for k, x in zip(keep, a)):
+            col.violation(label + "-overwrites-input", dict(rep))
+        return r
     # (n, k), (n,) with k = 1, (n, 1)
     y_tau = np.repeat(est[:, None], 3, axis=1)
     got = call("quantile_score", scores.quantile_score, y_tau, obs, taus)
